@@ -6,8 +6,9 @@
    its `failed` flag (`xrun`: the code since the repair of C15-N1/N2/N10): the two plain crash statements are
    THEOREMS, without any excluded class.  The writer as it was before (`frun`) is kept as a regression
    record: it violated both.
-   Pipeline level (Conc/PipeFail.v): arbitrary interleavings of committers; the plain live invisibility statement
-   is still REFUTED (partial apply, C15-N5); `_outside_known` states what holds outside the executable class. *)
+   Pipeline level (Conc/PipeFail.v): arbitrary interleavings of committers.  Since MemTable::add is all-or-nothing
+   (repair of C15-N5, e6ce312; generated flag C15_ATOMIC_ADD) the plain live invisibility statement is a THEOREM too;
+   the old entry-by-entry add (ATOMIC = false) is kept as a regression record: it violated it. *)
 From Coq Require Import List NArith Arith Bool.
 From SKV Require Import Params Base.Crc32 Codec.Wal Codec.WalSpec Codec.WalInst
   Crash.Fail Crash.FailSpec Crash.Fail_proofs Crash.FailParams Crash.FailInst Crash.FailInst_proofs
@@ -86,19 +87,37 @@ Proof. split; [exact x1_regression | split; [exact x2_results_eq | split; [exact
 Definition C15_SLOTS : nat := N.to_nat C15_COMMIT_SLOTS.
 Definition C15_PERMITS : nat := N.to_nat C15_COMMIT_PERMITS.
 
-(* failed_invisible_live outside the class `known_partial_apply`: a commit that failed (conflict, WAL
-   error, BatchTooLarge, apply error before the first insert) has no entry in the memtable, in any
-   interleaving, at any later time *)
-Theorem C15_failed_invisible_live_outside_known : failed_invisible_live_outside_known_stmt C15_SLOTS C15_PERMITS.
-Proof. exact (failed_invisible_live_outside_known C15_SLOTS C15_PERMITS). Qed.
+(* the add of the code: all-or-nothing *)
+Definition C15_ATOMIC : bool := C15_ATOMIC_ADD.
+Lemma C15_atomic_add : C15_ATOMIC = true.
+Proof. reflexivity. Qed.
 
-(* REFUTED: apply fails after inserting part of the batch; publish() advances the horizon over it *)
-Theorem C15_failed_invisible_live_refuted : ~ failed_invisible_live_stmt C15_SLOTS C15_PERMITS.
+(* failed_invisible_live, in full: in EVERY interleaving, at any later time, a committer whose commit() returned an
+   error (conflict, WAL error, BatchTooLarge, apply error: ArenaFull -> rotation / relog I/O error) has no entry
+   in any memtable — a fresh reader sees nothing of it, whatever the horizon *)
+Theorem C15_failed_invisible_live :
+  forall t s i, reach C15_SLOTS C15_PERMITS C15_ATOMIC t s -> failed s i = true -> entries_of s i = [] /\ visible_of s i = [].
+Proof. exact (failed_invisible_live_full C15_SLOTS C15_PERMITS C15_ATOMIC C15_atomic_add). Qed.
+
+(* the invariant behind it, for any add: a failed commit has entries only if its apply failed part-way *)
+Theorem C15_failed_invisible_live_outside_known : failed_invisible_live_outside_known_stmt C15_SLOTS C15_PERMITS C15_ATOMIC.
+Proof. exact (failed_invisible_live_outside_known C15_SLOTS C15_PERMITS C15_ATOMIC). Qed.
+
+(* regression record (C15-N5): with the old entry-by-entry add (ATOMIC = false) the statement was false: apply failed after
+   inserting 1 of 2 entries and publish() moved the horizon over it.  That trace is no behaviour of the all-or-nothing
+   add; the same commit failing in apply now leaves nothing in the memtable although the horizon moves over its range *)
+Theorem C15_old_add_failed_invisible_live_refuted : ~ failed_invisible_live_stmt C15_SLOTS C15_PERMITS false.
 Proof. exact failed_invisible_live_refuted. Qed.
+Example C15_former_partial_apply_trace :
+  prun 8 true (p0 7) wl_trace = None /\
+  match prun 8 true (p0 7) wl0_trace with
+  | Some s => failed s 0 = true /\ entries_of s 0 = [] /\ p_visible s = 2 /\ idle 7 s = true
+  | None => False end.
+Proof. split; [exact wl_not_a_behaviour | exact wl0_invisible]. Qed.
 
 (* sequential use: after a commit of ANY outcome the queue is empty and every permit is free *)
-Theorem C15_pipeline_not_poisoned_sequential : pipeline_not_poisoned_sequential_stmt C15_SLOTS C15_PERMITS.
-Proof. exact (pipeline_not_poisoned_sequential C15_SLOTS C15_PERMITS). Qed.
+Theorem C15_pipeline_not_poisoned_sequential : pipeline_not_poisoned_sequential_stmt C15_SLOTS C15_PERMITS C15_ATOMIC.
+Proof. exact (pipeline_not_poisoned_sequential C15_SLOTS C15_PERMITS C15_ATOMIC). Qed.
 
 (* pipeline_not_poisoned, the full statement, for EVERY interleaving of committers (with the generated sizes,
    7 permits < 8 slots): the commit queue never overflows and len(queue) + free permits <= permits — every
@@ -107,18 +126,18 @@ Proof. exact (pipeline_not_poisoned_sequential C15_SLOTS C15_PERMITS). Qed.
 Example C15_permits_lt_slots : C15_PERMITS < C15_SLOTS.
 Proof. apply Nat.ltb_lt. vm_compute. reflexivity. Qed.
 Theorem C15_pipeline_not_poisoned :
-  forall t s, reach C15_SLOTS C15_PERMITS t s -> p_panic s = false /\ length (p_q s) + p_free s <= C15_PERMITS.
-Proof. exact (pipeline_not_poisoned C15_SLOTS C15_PERMITS C15_permits_lt_slots). Qed.
+  forall t s, reach C15_SLOTS C15_PERMITS C15_ATOMIC t s -> p_panic s = false /\ length (p_q s) + p_free s <= C15_PERMITS.
+Proof. exact (pipeline_not_poisoned C15_SLOTS C15_PERMITS C15_ATOMIC C15_permits_lt_slots). Qed.
 
 (* regression of C15-N9: the former overflow trace (one committer applying, seven failing commits, one more)
    is no behaviour of the model any more; its longest enabled prefix leaves 7 entries queued, no permit
    free, no panic: the seventh failing committer gets no permit and no failed committer can return while
    its entry is queued; after the slow apply everything drains and every commit returns its own outcome *)
 Example C15_former_overflow_trace :
-  prun 8 (p0 7) wq_trace = None /\
+  prun 8 true (p0 7) wq_trace = None /\
   (p_panic wq_state = false /\ length (p_q wq_state) = 7 /\ p_free wq_state = 0 /\
-   pstep 8 wq_state (LAcquire 7) = None /\ pstep 8 wq_state (LFinish 1) = None) /\
-  match prun 8 wq_state wq_drain with
+   pstep 8 true wq_state (LAcquire 7) = None /\ pstep 8 true wq_state (LFinish 1) = None) /\
+  match prun 8 true wq_state wq_drain with
   | Some s => idle 7 s = true /\ failed s 1 = true /\ failed s 6 = true /\ failed s 0 = false
   | None => False end.
 Proof. split; [exact wq_not_a_behaviour | split; [exact wq_blocked | exact wq_drains]]. Qed.
